@@ -31,8 +31,8 @@ def _in_chars(items, rng, flags, ascii_only=False):
     pool=[ch for ch in ASCII_POOL+(["\n"] if ascii_only else ["\n","§","é","“"]) if ch not in pos and not catmatch(ch)]
     return rng.choice(pool)
 
-def sample(pattern, rng, flags=0, maxrep=3, ascii_only=False):
-    tree = sre_parse.parse(pattern, flags)
+def sample(pattern, rng, flags=0, maxrep=3, ascii_only=False, tree=None, chooser=None):
+    tree = tree if tree is not None else sre_parse.parse(pattern, flags)
     out=[]
     def cat_char(av):
         if av is sre_c.CATEGORY_DIGIT: return rng.choice("0123456789")
@@ -63,7 +63,7 @@ def sample(pattern, rng, flags=0, maxrep=3, ascii_only=False):
                         if a[0][1] in (sre_c.AT_END, sre_c.AT_END_STRING): 
                             ok.append(a); continue
                     ok.append(a)
-                walk(rng.choice(ok))
+                walk(chooser(alts, ok) if chooser else rng.choice(ok))
             elif op is sre_c.SUBPATTERN: walk(av[3])
             elif op in (sre_c.MAX_REPEAT, sre_c.MIN_REPEAT):
                 lo,hi,sub=av
@@ -75,3 +75,54 @@ def sample(pattern, rng, flags=0, maxrep=3, ascii_only=False):
             else: raise NotImplementedError(op)
     walk(tree)
     return "".join(out)
+
+
+def _branch_alts(seq, acc):
+    """all (id(alts), index) pairs of BRANCH nodes in a parsed (sub)pattern"""
+    for op, av in seq:
+        if op is sre_c.BRANCH:
+            for i, a in enumerate(av[1]):
+                acc.append((id(av[1]), i))
+                _branch_alts(a, acc)
+        elif op is sre_c.SUBPATTERN:
+            _branch_alts(av[3], acc)
+        elif op in (sre_c.MAX_REPEAT, sre_c.MIN_REPEAT):
+            _branch_alts(av[2], acc)
+    return acc
+
+
+def cover(pattern, rng, flags=0, max_samples=60, maxrep=2, ascii_only=False):
+    """Yield members of the pattern's language until every alternative of every alternation in the
+    parse tree has been taken at least once (or max_samples is reached): branch coverage of the pattern.
+    The caller validates each member against the real compiled regex."""
+    tree = sre_parse.parse(pattern, flags)
+    uncovered = set(_branch_alts(tree, []))
+    memo = {}
+
+    def pending(seq):
+        k = id(seq)
+        if k not in memo:
+            memo[k] = _branch_alts(seq, [])
+        return sum(1 for x in memo[k] if x in uncovered)
+
+    n = 0
+    while n < max_samples:
+        taken = []
+
+        def chooser(alts, ok):
+            best, score = None, -1
+            for a in ok:
+                i = next(j for j, b in enumerate(alts) if b is a)
+                sc = (2 if (id(alts), i) in uncovered else 0) + (1 if pending(a) else 0)
+                if sc > score or (sc == score and rng.random() < 0.3):
+                    best, score = (a, i), sc
+            taken.append((id(alts), best[1]))
+            return best[0]
+
+        s = sample(pattern, rng, flags, maxrep=maxrep, ascii_only=ascii_only, tree=tree, chooser=chooser)
+        n += 1
+        before = len(uncovered)
+        uncovered.difference_update(taken)
+        yield s
+        if not uncovered or (len(uncovered) == before and n > 3):
+            break
